@@ -262,7 +262,7 @@ theorem step_obs_valid (cfg : Cfg) (hn : 0 < cfg.n) (hk : 0 < cfg.k) (s : State)
 
 /-- whole episodes: along the rollout of ANY joint actions of length `k` from a state with the invariant and counter 0 (every
 generated state), every observation emitted by one of the first `time_limit` steps is a member of the spec (the episode is
-over by then: `connector_episode_ends_by_limit`) -/
+over by then: `Props.C11.connector_rollout_ends_by_limit`, Props/EpisodeInstances.lean) -/
 theorem rollout_obs_valid (cfg : Cfg) (hn : 0 < cfg.n) (hk : 0 < cfg.k) (s0 : State) (h : SpecInv cfg s0)
     (h0 : s0.stepCount = 0) (as : List (List Int)) (has : ∀ a ∈ as, a.length = cfg.k) (j : Nat)
     (hj : (j : Int) < cfg.timeLimit) (e : State × TimeStep Obs) (he : (Ep.rollout (step cfg) s0 as)[j]? = some e) :
@@ -325,5 +325,22 @@ theorem accepts_generate_value (cfg : Cfg) (hn : 0 < cfg.n) (hk : 0 < cfg.k) (s 
   unfold step finish condLastDiscount termination transition
   simp only []
   split <;> simp
+
+/-! ### audit r6 #2: `time_limit = 0` -/
+
+theorem step_obs_stepCount (cfg : Cfg) (s : State) (acts : List Int) :
+    (step cfg s acts).2.obs.stepCount = s.stepCount + 1 := by
+  rw [obs_faithful, ← step_count cfg s acts]; rfl
+
+/-- with `time_limit ≤ 0` NO step observation from a state with a non-negative counter is a member of the declared spec -/
+theorem time_limit_zero_step_obs_not_valid (cfg : Cfg) (h0 : cfg.timeLimit ≤ 0) (s : State)
+    (hs : 0 ≤ s.stepCount) (acts : List Int) :
+    (obsSpec cfg).valid (toNValue (step cfg s acts).2.obs) = false := by
+  cases hv : (obsSpec cfg).valid (toNValue (step cfg s acts).2.obs) with
+  | false => rfl
+  | true =>
+    have h := (obs_valid_only cfg _ hv).2.2.2.2.2.2
+    rw [step_obs_stepCount] at h
+    omega
 
 end Connector
